@@ -4,6 +4,7 @@
   the value component of the dual evaluation of an expression is its ordinary value.
 -/
 import Exmex.Proofs.DiffRules
+import Exmex.Proofs.DiffBinary
 namespace Exmex.Diff
 open Exmex.C10 Exmex.C05 Exmex.Shortcut Exmex.CalcLemmas Exmex.DeepCompile
 
@@ -11,10 +12,10 @@ open Exmex.C10 Exmex.C05 Exmex.Shortcut Exmex.CalcLemmas Exmex.DeepCompile
 
 section
 variable {α β : Type} (f : β → α) (apJ : Nat → β → β → β) (apI : Nat → α → α → α)
-  (h : ∀ k a b, f (apJ k a b) = apI k (f a) (f b))
+  (S : Nat → Prop) (h : ∀ k, S k → ∀ a b, f (apJ k a b) = apI k (f a) (f b))
 include h
 
-theorem reduceStep_map (st : OrderSt β) (k : Nat) :
+theorem reduceStep_map (st : OrderSt β) (k : Nat) (hk : S k) :
     reduceStep apI (st.1.map f, st.2) k = (reduceStep apJ st k).map (fun s => (s.1.map f, s.2)) := by
   unfold reduceStep
   simp only []
@@ -28,24 +29,24 @@ theorem reduceStep_map (st : OrderSt β) (k : Nat) :
       cases st.1[p + 1]? with
       | none => rfl
       | some b =>
-        simp [h, List.map_take, List.map_drop]
+        simp [h k hk, List.map_take, List.map_drop]
 
-theorem reduceLoop_map (π : List Nat) :
+theorem reduceLoop_map (π : List Nat) (hπ : ∀ k ∈ π, S k) :
     ∀ st : OrderSt β, reduceLoop apI π (st.1.map f, st.2) =
       (reduceLoop apJ π st).map (fun s => (s.1.map f, s.2)) := by
   induction π with
   | nil => intro st; rfl
   | cons k ks ih =>
     intro st
-    rw [reduceLoop, reduceLoop, reduceStep_map f apJ apI h]
+    rw [reduceLoop, reduceLoop, reduceStep_map f apJ apI S h st k (hπ k List.mem_cons_self)]
     cases reduceStep apJ st k with
     | none => rfl
-    | some st' => exact ih st'
+    | some st' => exact ih (fun j hj => hπ j (List.mem_cons_of_mem _ hj)) st'
 
-theorem reduceByOrder_map (ws : List β) (π : List Nat) :
+theorem reduceByOrder_map (ws : List β) (π : List Nat) (hπ : ∀ k ∈ π, S k) :
     reduceByOrder apI (ws.map f) π = (reduceByOrder apJ ws π).map f := by
   unfold reduceByOrder
-  have := reduceLoop_map f apJ apI h π (ws, List.range (ws.length - 1))
+  have := reduceLoop_map f apJ apI S h π hπ (ws, List.range (ws.length - 1))
   simp only [List.length_map] at this ⊢
   rw [this]
   cases reduceLoop apJ π (ws, List.range (ws.length - 1)) with
@@ -100,9 +101,9 @@ end
 section
 variable {K : Type} [DecidableEq K] (D : DArith K)
 
-theorem dualBin_none (n : String) (h : n ∉ ["+", "-", "*", "/", "^"]) (x y : DVal K) :
+theorem dualBin_none (n : String) (h : n ∉ binRuleNames) (x y : DVal K) :
     dualBin D n x y = none := by
-  simp only [List.mem_cons, List.not_mem_nil, or_false, not_or] at h
+  simp only [binRuleNames, List.mem_cons, List.not_mem_nil, or_false, not_or] at h
   unfold dualBin
   split <;> simp_all
 
@@ -121,10 +122,32 @@ variable {K : Type} [DecidableEq K] (I : Interp K) (C : CalcOps K) (t : Table) (
 include A hnames
 
 /-- the value component of the dual binary operators is the ordinary operator -/
-theorem dual_bin_val (i : Nat) (x y : DVal K) :
+theorem dual_bin_val (i : Nat) (hi : BinOK t i) (x y : DVal K) :
     ((dualInterp I C t).bin i x y).val = I.bin i x.val y.val := by
   show ((dualBin (dArith I C t) (String.ofList (reprOf t i)) x y).getD
     ⟨I.bin i x.val y.val, C.zero, false⟩).val = _
+  by_cases h8 : String.ofList (reprOf t i) ∈ [">", "<", ">=", "<=", "==", "!=", "if", "else"]
+  · -- a comparison, `if` or `else`: `dArith.bop` under the name is the operator `i` itself
+    obtain ⟨op, hop⟩ := hi h8
+    have hne : reprOf t i ≠ [] := by
+      intro h0
+      rw [h0] at h8
+      revert h8
+      decide
+    have hidx : i = op.idx := binIdx_eq t hnames _ op hop i rfl hne
+    have hop' : findBinOp t (String.ofList (reprOf t i)).toList = .ok op := by
+      rw [String.toList_ofList]; exact hop
+    have hb : ∀ a b, (dArith I C t).bop (String.ofList (reprOf t i)) a b = I.bin i a b := by
+      intro a b
+      rw [dArith_bop I C t _ op hop', ← hidx]
+    by_cases hc : String.ofList (reprOf t i) ∈ [">", "<", "!=", "==", "<=", ">="]
+    · rw [dualBin_cmp _ _ hc]
+      exact hb _ _
+    · have hp : String.ofList (reprOf t i) ∈ ["if", "else"] := by
+        simp only [List.mem_cons, List.not_mem_nil, or_false] at h8 hc ⊢
+        grind
+      rw [dualBin_pw _ _ hp]
+      exact hb _ _
   by_cases hm : String.ofList (reprOf t i) ∈ ["+", "-", "*", "/", "^"]
   · generalize hn : String.ofList (reprOf t i) = name at hm
     have hr := ofList_eq hn
@@ -140,7 +163,9 @@ theorem dual_bin_val (i : Nat) (x y : DVal K) :
       exact dArith_div I C t A _ _
     · rw [dualBin_pow, binIdx_eq t hnames _ A.pow A.hpow i hr (by decide)]
       exact dArith_pow I C t A _ _
-  · rw [dualBin_none _ _ hm]
+  · rw [dualBin_none _ _ (by
+      simp only [binRuleNames, List.mem_cons, List.not_mem_nil, or_false] at h8 hm ⊢
+      grind)]
     rfl
 
 omit A [DecidableEq K] in
@@ -231,58 +256,68 @@ include A hnames
 set_option linter.unusedSectionVars false
 
 mutual
-theorem lift_val : ∀ e : DeepEx K, Named T e → Scoped t T e → ∀ w,
+theorem lift_val : ∀ e : DeepEx K, Named T e → Scoped t T e → BinT t e → ∀ w,
     (e.lift C).evalRelaxed (dualInterp I C t) (T.map (seed C ρ x)) = .ok w →
       e.evalRelaxed I (T.map ρ) = .ok w.val
-  | .mk nodes ops un vars, hn, hs, w, h => by
+  | .mk nodes ops un vars, hn, hs, hb, w, h => by
     rw [lift_mk] at h
     rw [Named] at hn
     rw [Scoped] at hs
+    rw [BinT] at hb
     obtain ⟨ws, v, hv, hnl, hl, hred, hw⟩ := eval_group_inv (dualInterp I C t) _ (liftList C nodes)
       ops un vars w (by rw [liftList_length]; exact hn.1) h
-    have hI := lift_val_list nodes hn.2.2 hs.2.2.2 ws hnl
+    have hI := lift_val_list nodes hn.2.2 hs.2.2.2 hb.2 ws hnl
     rw [List.length_map] at hv
     rw [liftList_length] at hl
     obtain ⟨v', h1, h2⟩ := eval_group I (T.map ρ) nodes ops un vars (ws.map (·.val))
       (by rw [List.length_map]; exact hv) hI (by rw [List.length_map, hl]; exact hn.1)
     rw [h2, hw, applyUn_val I C t hnames un hs.2.2.1]
+    have hπ : ValidOrder (prioIdxDeep ops nodes) ops.length := orderByKey_valid _ _
     have hm := reduceByOrder_map (fun (w : DVal K) => w.val) (gApply (dualInterp I C t) ops)
-      (gApply I ops) (fun k a b => dual_bin_val I C t A hnames _ a b) ws (prioIdxDeep ops nodes)
+      (gApply I ops) (fun k => k < ops.length)
+      (fun k hk a b => by
+        have hmem : ops.getD k default ∈ ops := by
+          rw [List.getD_eq_getElem?_getD, List.getElem?_eq_getElem hk]
+          exact List.getElem_mem hk
+        exact dual_bin_val I C t A hnames _ (hb.1 _ hmem) a b)
+      ws (prioIdxDeep ops nodes) hπ.lt
     rw [prio_lift] at hred
     rw [hm, hred] at h1
     cases h1
     rfl
-theorem lift_val_node : ∀ nd : DeepNode K, NamedNode T nd → ScopedNode t T nd → ∀ w,
+theorem lift_val_node : ∀ nd : DeepNode K, NamedNode T nd → ScopedNode t T nd → BinTNode t nd → ∀ w,
     (nd.lift C).evalNode (dualInterp I C t) (T.map (seed C ρ x)) = .ok w →
       nd.evalNode I (T.map ρ) = .ok w.val
-  | .num a, _, _, w, h => by
+  | .num a, _, _, _, w, h => by
     rw [DeepNode.lift, DeepNode.evalNode] at h
     cases h
     rw [DeepNode.evalNode]
-  | .var i nm, hn, _, w, h => by
+  | .var i nm, hn, _, _, w, h => by
     rw [NamedNode] at hn
     rw [DeepNode.lift, DeepNode.evalNode, List.getElem?_map, hn] at h
     simp only [Option.map] at h
     cases h
     rw [DeepNode.evalNode, List.getElem?_map, hn]
     rfl
-  | .expr e, hn, hs, w, h => by
+  | .expr e, hn, hs, hb, w, h => by
     rw [NamedNode] at hn
     rw [ScopedNode] at hs
+    rw [BinTNode] at hb
     rw [DeepNode.lift, DeepNode.evalNode] at h
     rw [DeepNode.evalNode]
-    exact lift_val e hn hs w h
-theorem lift_val_list : ∀ l : List (DeepNode K), namedList T l → scopedList t T l → ∀ ws,
+    exact lift_val e hn hs hb w h
+theorem lift_val_list : ∀ l : List (DeepNode K), namedList T l → scopedList t T l → binTList t l → ∀ ws,
     evalNodeList (dualInterp I C t) (T.map (seed C ρ x)) (liftList C l) = .ok ws →
       evalNodeList I (T.map ρ) l = .ok (ws.map (·.val))
-  | [], _, _, ws, h => by
+  | [], _, _, _, ws, h => by
     rw [liftList, evalNodeList] at h
     cases h
     rw [evalNodeList]
     rfl
-  | nd :: rest, hn, hs, ws, h => by
+  | nd :: rest, hn, hs, hb, ws, h => by
     rw [namedList] at hn
     rw [scopedList_cons] at hs
+    rw [binTList_cons] at hb
     rw [liftList, evalNodeList] at h
     cases h1 : (nd.lift C).evalNode (dualInterp I C t) (T.map (seed C ρ x)) with
     | error e => rw [h1] at h; cases h
@@ -292,7 +327,7 @@ theorem lift_val_list : ∀ l : List (DeepNode K), namedList T l → scopedList 
       | ok vs =>
         rw [h1, h2] at h
         cases h
-        rw [evalNodeList, lift_val_node nd hn.1 hs.1 v h1, lift_val_list rest hn.2 hs.2 vs h2]
+        rw [evalNodeList, lift_val_node nd hn.1 hs.1 hb.1 v h1, lift_val_list rest hn.2 hs.2 hb.2 vs h2]
         rfl
 end
 
